@@ -5,6 +5,7 @@ per-action coverage, invariant/property violations, and the JSON lines that the
 specifications print from a CONSTRAINT (transition dumps, trace positions).
 """
 import json
+import sys
 import os
 import re
 import shutil
@@ -127,12 +128,30 @@ class TlcResult:
 
   def printed_json(self):
     """JSON values printed with PrintT(ToJson(x)): one quoted string per line."""
-    for line in self.out.splitlines():
-      if line.startswith('"{') or line.startswith('"['):
+    # strings are interned while decoding: a dump of a million transitions repeats a few hundred distinct strings
+    # (a thorough C01 config held 21 KB per record before, and the OOM killer ended it on a loaded machine)
+    intern = sys.intern
+
+    def hook(pairs):
+      return {intern(k): (intern(v) if type(v) is str else v) for k, v in pairs}
+    start = 0
+    out = self.out
+    n = len(out)
+    while start < n:
+      end = out.find('\n', start)
+      if end < 0:
+        end = n
+      if out.startswith('"{', start) or out.startswith('"[', start):
+        line = out[start:end]
         try:
-          yield json.loads(json.loads(line))
+          yield json.loads(json.loads(line), object_pairs_hook=hook)
         except ValueError as e:
           raise MachineryError('unparsable TLC JSON line: %r (%s)' % (line[:200], e))
+      start = end + 1
+
+  def drop_printed(self):
+    """Forgets the printed JSON lines (after they have been parsed): the rest of TLC's output stays for diagnostics."""
+    self.out = '\n'.join(l for l in self.out.splitlines() if not (l.startswith('"{') or l.startswith('"[')))
 
   def printed_tuples(self, tag):
     """Tuples printed as <<"TAG", a, b, ...>> with integer fields."""
